@@ -57,7 +57,7 @@ inv:
 cbr:
 	%cb = callbr i32 (i32, ...) @g(i32 %a, i32 %ld, i32 %a) [ "deopt"(i32 %a) ] to label %ret [label %ind]
 lp:
-	%l = landingpad { i8*, i32 } cleanup catch i8* %addr
+	%l = landingpad { i8*, i32 } cleanup catch i8* bitcast (i32 (...)* @pers to i8*)
 	resume { i8*, i32 } %l
 ret:
 	ret i32 %sel
